@@ -348,7 +348,12 @@ def exec_call(ctx, league, op, tracer=None):
                     kw[sel] = pool.setdefault((sel, json.dumps(op[sel])), kw[sel])
                     ctx.count("standing_outcome_list_passed")
         rec["kw"] = kw
-        fn = lambda: league.model.rate(teams, **kw)
+        if (len(teams) + len(kw)) % 3 == 0:
+            # one call in three names its first argument, as the repository's own tests do
+            # (references always pass it positionally)
+            fn = lambda: league.model.rate(teams=teams, **kw)
+        else:
+            fn = lambda: league.model.rate(teams, **kw)
     else:
         fn = lambda: do_predict(league.model, op["kind"], teams)
     if tracer is not None:
